@@ -15,7 +15,7 @@ import numpy as np
 from harness import buildlib as B
 from harness.common import Run
 
-CONE = ["Base.v", "IR.v", "Show.v", "Build.v", "Sem.v", "Plan.v", "Named.v", "Validate.v", "BuildFacts.v", "SemFacts.v", "FuncFacts.v", "NamedFacts.v", "DfsFacts.v", "CompilePres.v", "ScopeFacts.v", "EmitFacts.v", "ReachFacts.v", "DiscoverFacts.v", "CoverageFacts.v", "PlanFacts.v"]
+CONE = ["Base.v", "IR.v", "Show.v", "Build.v", "Sem.v", "Plan.v", "Named.v", "Validate.v", "BuildFacts.v", "SemFacts.v", "FuncFacts.v", "NamedFacts.v", "DfsFacts.v", "CompilePres.v", "ScopeFacts.v", "EmitFacts.v", "ReachFacts.v", "DiscoverFacts.v", "CoverageFacts.v", "PlanFacts.v", "LcaFacts.v", "PlacementFacts.v", "DefUseFacts.v", "TreeFacts.v", "WfFacts.v", "LegalFacts.v"]
 PROPS = "props/C01.v"
 
 
@@ -138,6 +138,12 @@ def run(run: Run) -> int:
                      "C01_build_sem_by_construction (its specification-level plan is not a well-formed linearisation)", B.describe(c))
             break
     n_sz = signed_zero_attributes(run)
+    lprem = B.premise_eval(run, "c01legal", "LegalFacts", "legal_req", [c.coq for c in built])
+    for c, ok in zip(built, lprem):
+        if not ok:
+            run.fail("corr", "C01/legality-premise-not-met", "a program that builds does not satisfy the decidable legality condition of "
+                     "C01_build_sem_for_legal_programs", B.describe(c))
+            break
     nprng = np.random.RandomState(run.seed)
     out_hist = collections.Counter()
     distinct, n_exec, n_bad = set(), 0, 0
@@ -174,6 +180,7 @@ def run(run: Run) -> int:
         "traces_validated_against_impl": len([c for c in cases if c.coq is not None]) - len(mism),
         "disagreements_checked": len(mism),
         "coverage_theorem_premises_met": f"{sum(cprem)} of {len(built)} programs that build",
+        "legality_premise_met (C01_build_sem_for_legal_programs)": f"{sum(lprem)} of {len(built)} programs that build",
         "semantic_theorem_by_construction_premise_met": f"{sum(sprem)} of {len(built)} programs that build",
         "signed_zero_attribute_comparisons": n_sz,
         "models_executed_ort_vs_numpy": n_exec, "bindings_per_model": 2, "semantic_mismatches": n_bad,
